@@ -22,6 +22,9 @@ def _scenarios(ctx, gens, free_every):
             s["gen"] = cfg
             # every third graph has part of its files in a remote repository (//host/org/repo/... import spellings)
             s["remote"] = len(scn) % 3 == 2
+            # every fourth graph without faults gives its files one base name in directories that differ only in
+            # leading dots, case or an underscore (the driver decides; see Twins in importclosure.go)
+            s["twins"] = len(scn) % 4 == 1
             scn.append(s)
     out = []
     for i, s in enumerate(scn):
